@@ -655,9 +655,12 @@ class ConfigValidator:
 
         color = Util.string_to_list(color_string)
         try:
-            return int(color[0]), int(color[1]), int(color[2])
+            color = int(color[0]), int(color[1]), int(color[2])
         except (IndexError, ValueError) as e:
             raise self.validation_error(item, validation_failure_info, "Could not parse color: {}".format(e))
+        if not all(0 <= component <= 255 for component in color):
+            raise self.validation_error(item, validation_failure_info, "Color components have to be between 0 and 255")
+        return color
 
     def _validate_type_bool_int(self, item, validation_failure_info):
         if self._validate_type_bool(item, validation_failure_info):
